@@ -1,9 +1,9 @@
 CONSTANTS
-  NV = 3
-  NSlots = 2
-  MaxLen = 4
+  NV = 4
+  NSlots = 1
+  MaxLen = 7
   WithMove = FALSE
-  Regrow = FALSE
+  Regrow = TRUE
   CloneDeep = FALSE
 INIT Init
 NEXT Next
